@@ -69,8 +69,13 @@ theorem NullEmpty.step {lay lay' : Layout} (h : NullEmpty lay.secs) (hs : LaySte
     for every member that is not SHT_NULL-typed; an empty SHT_NULL-typed member has gap 0 by `StepOkC`. -/
 theorem stepNoWrap_of_NW {c : Cls} {g : Seg} {ss : BitVec 64} {st : WsdSt} {idx : BitVec 16}
     (hC : StepOkC c g ss st idx) (hnw : wsdStepNW c g ss st idx = true)
-    (hss : ss.toNat ≤ st.lay.pos.toNat) (hnull : NullEmpty st.lay.secs) : StepNoWrap g ss st idx := by
+    (hss : ss.toNat ≤ st.lay.pos.toNat ∨ st.lay.gen[idx.toNat]? = some true)
+    (hnull : NullEmpty st.lay.secs) : StepNoWrap g ss st idx := by
   intro sec hs hg ha gap hgap
+  have hss : ss.toNat ≤ st.lay.pos.toNat := by
+    rcases hss with h | h
+    · exact h
+    · rw [hg] at h; cases h
   refine ⟨hss, ?_⟩
   by_cases hn : wsd_is_null sec.stype = true
   · have hsz : sec.size = 0 := hnull sec (List.mem_of_getElem? hs) hn
@@ -99,34 +104,54 @@ theorem stepNoWrap_of_NW {c : Cls} {g : Seg} {ss : BitVec 64} {st : WsdSt} {idx 
     simp only [Bool.and_eq_true, decide_eq_true_eq] at hnw
     exact (C04.noWrap_iff st.lay.pos gap).1 hnw.1.1
 
-/-- all members of one segment -/
+/-- the member has been generated before its step comes (`StepNoWrap` is then vacuous) -/
+def wsdStepGenB (st : WsdSt) (idx : BitVec 16) : Bool := st.lay.gen[idx.toNat]? == some true
+
+/-- all members of one segment: `seg_start_pos ≤ cursor`, or every member is already generated when its
+    step comes (a fully nested segment: no address is assigned) -/
 theorem loopOkR_of_NW {c : Cls} {g : Seg} {ss : BitVec 64} (l : List (BitVec 16)) {st : WsdSt} {lo : Nat}
     (hinv : LayInv lo st.lay) (hC : LoopOkC c g ss l st) (hnw : wsdLoopNW c g ss l st = true)
-    (hss : ss.toNat ≤ st.lay.pos.toNat) (hnull : NullEmpty st.lay.secs) : LoopOkR c g ss l st := by
+    (hss : ss.toNat ≤ st.lay.pos.toNat ∨
+      wsdLoopAll (fun st idx => wsdStepGenB st idx) c g ss l st = true)
+    (hnull : NullEmpty st.lay.secs) : LoopOkR c g ss l st := by
   induction l generalizing st with
   | nil => trivial
   | cons idx rest ih =>
     unfold wsdLoopNW at hnw
     simp only [Bool.and_eq_true] at hnw
-    refine ⟨⟨hC.1, stepNoWrap_of_NW hC.1 hnw.1 hss hnull⟩, fun st' hs => ?_⟩
+    have hstep : ss.toNat ≤ st.lay.pos.toNat ∨ st.lay.gen[idx.toNat]? = some true := by
+      rcases hss with h | h
+      · exact Or.inl h
+      · unfold wsdLoopAll at h
+        simp only [Bool.and_eq_true] at h
+        exact Or.inr (by simpa [wsdStepGenB] using h.1)
+    refine ⟨⟨hC.1, stepNoWrap_of_NW hC.1 hnw.1 hstep hnull⟩, fun st' hs => ?_⟩
     have h2 := hnw.2
     rw [hs] at h2
     obtain ⟨i1, s1⟩ := wsdStep_inv c g ss st st' idx lo hinv hnw.1 hs
-    exact ih i1 (hC.2 st' hs) h2 (Nat.le_trans hss s1.mono) (hnull.step s1)
+    refine ih i1 (hC.2 st' hs) h2 ?_ (hnull.step s1)
+    rcases hss with h | h
+    · exact Or.inl (Nat.le_trans h s1.mono)
+    · unfold wsdLoopAll at h
+      simp only [Bool.and_eq_true] at h
+      have h3 := h.2
+      rw [hs] at h3
+      exact Or.inr h3
 
 /-! ### one segment -/
 
 /-- the segment has no members, or `seg_start_pos` is at or below the cursor `write_segment_data`
-    starts from -/
-def segStartLeB (phoff : BitVec 64) (pe pn : BitVec 16) (lay : Layout) (g : Seg) : Bool :=
+    starts from, or every member is already generated when its step comes (fully nested segment) -/
+def segStartLeB (c : Cls) (phoff : BitVec 64) (pe pn : BitVec 16) (lay : Layout) (g : Seg) : Bool :=
   g.secs.isEmpty ||
   match segStartOf phoff pe pn lay g with
-  | .ok p => decide (p.2.1.toNat ≤ p.1.pos.toNat)
+  | .ok p => decide (p.2.1.toNat ≤ p.1.pos.toNat) ||
+      wsdLoopAll (fun st idx => wsdStepGenB st idx) c g p.2.1 g.secs { lay := p.1, mem := p.2.2.1, file := p.2.2.2 }
   | _ => true
 
 theorem segOkR_of_NW {c : Cls} {phoff : BitVec 64} {pe pn : BitVec 16} {lay : Layout} {g : Seg} {lo : Nat}
     (hinv : LayInv lo lay) (hC : SegOkC c phoff pe pn lay g) (hnw : segNW c phoff pe pn lay g = true)
-    (hst : segStartLeB phoff pe pn lay g = true) (hnull : NullEmpty lay.secs) :
+    (hst : segStartLeB c phoff pe pn lay g = true) (hnull : NullEmpty lay.secs) :
     SegOkR c phoff pe pn lay g := by
   intro p hp
   obtain ⟨h1, h2, h3⟩ := hC p hp
@@ -136,8 +161,9 @@ theorem segOkR_of_NW {c : Cls} {phoff : BitVec 64} {pe pn : BitVec 16} {lay : La
   | cons a b =>
     rw [← hq]
     unfold segStartLeB at hst
-    rw [hp, hq] at hst
-    simp only [List.isEmpty_cons, Bool.false_or, decide_eq_true_eq] at hst
+    have hne : g.secs.isEmpty = false := by rw [hq]; rfl
+    rw [hp, hne] at hst
+    simp only [Bool.false_or, Bool.or_eq_true, decide_eq_true_eq] at hst
     obtain ⟨esecs, -⟩ := segStartOf_secs hp
     rw [segStartOf_eq_init c] at hp
     unfold segNW at hnw
@@ -155,8 +181,8 @@ theorem segOkR_of_NW {c : Cls} {phoff : BitVec 64} {pe pn : BitVec 16} {lay : La
         (by show NullEmpty p.1.secs; rw [esecs]; exact hnull)
 
 /-- a segment that starts a fresh run starts at the cursor -/
-theorem segStartLeB_of_fresh (phoff : BitVec 64) (pe pn : BitVec 16) (lay : Layout) (g : Seg)
-    (h : g.secs.isEmpty = true ∨ segFreshB lay g = true) : segStartLeB phoff pe pn lay g = true := by
+theorem segStartLeB_of_fresh (c : Cls) (phoff : BitVec 64) (pe pn : BitVec 16) (lay : Layout) (g : Seg)
+    (h : g.secs.isEmpty = true ∨ segFreshB lay g = true) : segStartLeB c phoff pe pn lay g = true := by
   unfold segStartLeB
   rcases h with h | h
   · rw [h]; rfl
@@ -177,10 +203,10 @@ theorem segStartLeB_of_fresh (phoff : BitVec 64) (pe pn : BitVec 16) (lay : Layo
 
 /-- a nested segment whose already generated first member occupies file space starts at or below the
     cursor (`LayInv`: generated file-occupying sections end at or before the cursor) -/
-theorem segStartLeB_of_occ (phoff : BitVec 64) (pe pn : BitVec 16) (lay : Layout) (g : Seg) (lo : Nat)
+theorem segStartLeB_of_occ (c : Cls) (phoff : BitVec 64) (pe pn : BitVec 16) (lay : Layout) (g : Seg) (lo : Nat)
     (hinv : LayInv lo lay) (hn : segNestedStartB lay g = true)
     (hocc : ∀ f s, g.secs.head? = some f → lay.secs[f.toNat]? = some s → s.Occ) :
-    segStartLeB phoff pe pn lay g = true := by
+    segStartLeB c phoff pe pn lay g = true := by
   unfold segStartLeB
   unfold segNestedStartB at hn
   simp only [Bool.and_eq_true, Bool.not_eq_true'] at hn
@@ -200,15 +226,15 @@ theorem segStartLeB_of_occ (phoff : BitVec 64) (pe pn : BitVec 16) (lay : Layout
     | some s =>
       have := (hinv.packed.inR f.toNat s hs hg (hocc f s hh hs)).2
       unfold SecBuf.endN at this
-      simp [hh, hg, h1, h2, hpos, hs, bind, Except.bind, pure, Except.pure]
-      omega
+      have hle : s.offset.toNat ≤ lay.pos.toNat := by omega
+      simp [hh, hg, h1, h2, hpos, hs, bind, Except.bind, pure, Except.pure, hle]
 
 /-! ### all segments -/
 
 theorem runOkR_of_NW {c : Cls} {e : Enc} {h0 : Bytes} (l : List Seg) {lay : Layout} {lo : Nat}
     (hinv : LayInv lo lay) (hC : RunOkC c e h0 lay l)
     (hnw : segsNW c (Hdr.e_phoff c e h0) (Hdr.e_phentsize c e h0) (Hdr.e_phnum c e h0) l lay = true)
-    (hst : segsAllB (segStartLeB (Hdr.e_phoff c e h0) (Hdr.e_phentsize c e h0) (Hdr.e_phnum c e h0)) c
+    (hst : segsAllB (segStartLeB c (Hdr.e_phoff c e h0) (Hdr.e_phentsize c e h0) (Hdr.e_phnum c e h0)) c
       (Hdr.e_phoff c e h0) (Hdr.e_phentsize c e h0) (Hdr.e_phnum c e h0) l lay = true)
     (hnull : NullEmpty lay.secs) : RunOkR c e h0 lay l := by
   induction l generalizing lay with
@@ -229,7 +255,7 @@ theorem runOkR_of_NW {c : Cls} {e : Enc} {h0 : Bytes} (l : List Seg) {lay : Layo
 def layoutStartsB (o : Obj) (h : Bytes) : Bool :=
   match layoutOf o h with
   | .ok (some res) =>
-    segsAllB (segStartLeB (Hdr.e_phoff o.cls o.enc res.hdr0) (Hdr.e_phentsize o.cls o.enc res.hdr0)
+    segsAllB (segStartLeB o.cls (Hdr.e_phoff o.cls o.enc res.hdr0) (Hdr.e_phentsize o.cls o.enc res.hdr0)
         (Hdr.e_phnum o.cls o.enc res.hdr0))
       o.cls (Hdr.e_phoff o.cls o.enc res.hdr0) (Hdr.e_phentsize o.cls o.enc res.hdr0)
       (Hdr.e_phnum o.cls o.enc res.hdr0) res.ordered (lay0Of o res.pos0)
@@ -271,7 +297,140 @@ theorem layoutStartsB_of_flat {cov ins : Bool} {o : Obj} {h : Bytes}
       simp only at hd ⊢
       refine segsAllB_imp (fun lay g hp => ?_) _ _ _ _ _ _ hd
       simp only [Bool.not_true, Bool.false_or, Bool.and_eq_true, Bool.or_eq_true] at hp
-      exact segStartLeB_of_fresh _ _ _ lay g hp.2
+      exact segStartLeB_of_fresh _ _ _ _ lay g hp.2
+
+/-! ### flat and fully nested segments together -/
+
+theorem wsdLoopAll_imp {P Q : WsdSt → BitVec 16 → Bool} (hPQ : ∀ st idx, P st idx = true → Q st idx = true)
+    (c : Cls) (g : Seg) (ss : BitVec 64) (l : List (BitVec 16)) (st : WsdSt)
+    (h : wsdLoopAll P c g ss l st = true) : wsdLoopAll Q c g ss l st = true := by
+  induction l generalizing st with
+  | nil => rfl
+  | cons idx rest ih =>
+    unfold wsdLoopAll at h ⊢
+    simp only [Bool.and_eq_true] at h ⊢
+    refine ⟨hPQ _ _ h.1, ?_⟩
+    cases hs : wsdStep c g ss st idx with
+    | error e => rfl
+    | ok r =>
+      cases r with
+      | none => rfl
+      | some st1 =>
+        have h2 := h.2
+        rw [hs] at h2
+        exact ih st1 h2
+
+theorem wsdStepGenB_of_nested (ss : BitVec 64) (st : WsdSt) (idx : BitVec 16)
+    (h : wsdStepNested ss st idx = true) : wsdStepGenB st idx = true := by
+  unfold wsdStepNested at h
+  unfold wsdStepGenB
+  cases hs : st.lay.secs[idx.toNat]? with
+  | none => rw [hs] at h; cases h
+  | some sec =>
+    cases hg : st.lay.gen[idx.toNat]? with
+    | none => rw [hs, hg] at h; cases h
+    | some b =>
+      cases b with
+      | false => rw [hs, hg] at h; cases h
+      | true => rfl
+
+/-- a fully nested segment (`segNestedB`: every member already generated) meets the start condition -/
+theorem segStartLeB_of_nested (c : Cls) (phoff : BitVec 64) (pe pn : BitVec 16) (lay : Layout) (g : Seg)
+    (h : segNestedB c phoff pe pn lay g = true) : segStartLeB c phoff pe pn lay g = true := by
+  unfold segStartLeB
+  unfold segNestedB at h
+  simp only [Bool.and_eq_true] at h
+  have h2 := h.2
+  rw [segStartOf_eq_init c]
+  cases hfg : segFirstGen lay g with
+  | error e => simp [bind, Except.bind]
+  | ok fg =>
+    rw [hfg] at h2
+    simp only [bind, Except.bind] at h2 ⊢
+    cases hin : segInit c phoff pe pn lay g fg with
+    | error e => simp
+    | ok r =>
+      rw [hin] at h2
+      simp only at h2 ⊢
+      rw [wsdLoopAll_imp (fun st idx hp => wsdStepGenB_of_nested r.2.1 st idx hp) c g r.2.1 g.secs _ h2]
+      simp
+
+theorem segsAllB_imp_mem {P Q : Layout → Seg → Bool} (c : Cls) (phoff : BitVec 64) (pe pn : BitVec 16)
+    (l : List Seg) (lay : Layout) (hPQ : ∀ lay, ∀ g ∈ l, P lay g = true → Q lay g = true)
+    (h : segsAllB P c phoff pe pn l lay = true) : segsAllB Q c phoff pe pn l lay = true := by
+  induction l generalizing lay with
+  | nil => rfl
+  | cons g rest ih =>
+    unfold segsAllB at h ⊢
+    simp only [Bool.and_eq_true] at h ⊢
+    refine ⟨hPQ _ g List.mem_cons_self h.1, ?_⟩
+    cases hs : layoutSegment c phoff pe pn lay g with
+    | error e => rfl
+    | ok r =>
+      cases r with
+      | none => rfl
+      | some r =>
+        obtain ⟨lay1, g1⟩ := r
+        have h2 := h.2
+        rw [hs] at h2
+        exact ih lay1 (fun lay g hg => hPQ lay g (List.mem_cons_of_mem _ hg)) h2
+
+theorem segsAllB_and {P Q : Layout → Seg → Bool} (c : Cls) (phoff : BitVec 64) (pe pn : BitVec 16)
+    (l : List Seg) (lay : Layout) (h1 : segsAllB P c phoff pe pn l lay = true)
+    (h2 : segsAllB Q c phoff pe pn l lay = true) :
+    segsAllB (fun lay g => P lay g && Q lay g) c phoff pe pn l lay = true := by
+  induction l generalizing lay with
+  | nil => rfl
+  | cons g rest ih =>
+    unfold segsAllB at h1 h2 ⊢
+    simp only [Bool.and_eq_true] at h1 h2 ⊢
+    refine ⟨⟨h1.1, h2.1⟩, ?_⟩
+    cases hs : layoutSegment c phoff pe pn lay g with
+    | error e => rfl
+    | ok r =>
+      cases r with
+      | none => rfl
+      | some r =>
+        obtain ⟨lay1, g1⟩ := r
+        have a := h1.2
+        have b := h2.2
+        rw [hs] at a b
+        exact ih lay1 a b
+
+/-- objects whose segments are flat (`selE`, `layoutDomB`) or fully nested (`selN`, `layoutNestedB`), every
+    segment one or the other (`NestedDomain` of Props/Compose2.lean), meet `layoutStartsB` -/
+theorem layoutStartsB_of_mixed {cov ins : Bool} {o : Obj} {h : Bytes} {selE selN : Nat → Bool}
+    (hd : layoutDomB cov ins selE o h = true) (hn : layoutNestedB selN o h = true)
+    (hcover : ∀ g ∈ o.segs, selE g.index = true ∨ selN g.index = true) : layoutStartsB o h = true := by
+  unfold layoutStartsB
+  unfold layoutDomB at hd
+  unfold layoutNestedB at hn
+  cases hl : layoutOf o h with
+  | error e => rfl
+  | ok r =>
+    cases r with
+    | none => rfl
+    | some res =>
+      rw [hl] at hd hn
+      simp only at hd hn ⊢
+      obtain ⟨-, -, hmap, hord, -, -, -, -⟩ := layoutOf_parts o h res hl
+      have hp := orderedSegments_perm _ _ hord
+      have hidx := (mapM_calcSegAlign _ _ _ hmap).1
+      refine segsAllB_imp_mem _ _ _ _ _ _ (fun lay g hg hp' => ?_) (segsAllB_and _ _ _ _ _ _ hd hn)
+      simp only [Bool.and_eq_true, Bool.or_eq_true, Bool.not_eq_true'] at hp'
+      have hsel : selE g.index = true ∨ selN g.index = true := by
+        have hg0 : g ∈ res.segs0 := (hp.mem_iff).1 hg
+        have : g.index ∈ res.segs0.map (·.index) := List.mem_map_of_mem hg0
+        rw [hidx] at this
+        obtain ⟨g0, hg0m, e⟩ := List.mem_map.1 this
+        rw [← e]; exact hcover g0 hg0m
+      rcases hsel with hE | hN
+      · rcases hp'.1 with hf | hf
+        · rw [hE] at hf; cases hf
+        · exact segStartLeB_of_fresh _ _ _ _ lay g hf.2
+      · rcases hp'.2 with hf | hf
+        · rw [hN] at hf; cases hf
+        · exact segStartLeB_of_nested _ _ _ _ lay g hf.2
 
 /-! ### the saved object -/
 
@@ -424,6 +583,36 @@ theorem save_load_save_flat' {o : Obj} {os : OStream} {r : SaveRes} {hd : Bytes}
     ∃ (r2 : LoadRes) (r3 : SaveRes), load o2 { data := r.os.content, kind := k } isLazy = .ok r2 ∧ r2.ok = true ∧
       save r2.obj os = .ok r3 ∧ r3.ok = true ∧ r3.os = r.os :=
   save_load_save_flat hs hok hg hos (D.toResaveDomain hs hok) hw hsep o2 k isLazy htr2
+
+/-- **save_load_save_nested_input'** (C06, flat and fully nested segments) : `save_load_save_nested_input`
+    with `ResaveOkC` in place of `ResaveOkR` — the `StepNoWrap` part follows from `layoutNW`
+    (`C06.layoutStartsB_of_mixed`: a flat segment starts at the cursor, a fully nested one assigns no
+    address). -/
+theorem save_load_save_nested_input' {o : Obj} {os : OStream} {r : SaveRes} {hd : Bytes} {selE selN : Nat → Bool}
+    (hs : save o os = .ok r) (hok : r.ok = true) (hg : os.Good) (hos : os.content.length < 9223372036854775808)
+    (D : NestedDomain o hd selE selN) (hw : noWrap64InB o hd = true)
+    (hres : ∀ a ∈ o.secs, ResidentFull a)
+    (hfront : C06.FrontOk o.segs) (hrs : C06.ResaveOkC o hd)
+    (hmem : membersRecomputedInB o hd = true)
+    (o2 : Obj) (k : StreamKind) (isLazy : Bool) (htr2 : o2.trans = []) :
+    ∃ (r2 : LoadRes) (r3 : SaveRes), load o2 { data := r.os.content, kind := k } isLazy = .ok r2 ∧ r2.ok = true ∧
+      save r2.obj os = .ok r3 ∧ r3.ok = true ∧ r3.os = r.os := by
+  obtain ⟨hdr', res, hh', hlay, -⟩ := save_layout o os r hs hok
+  rw [D.hdr] at hh'; cases hh'
+  have hst : C06.layoutStartsB (preSave o) hd = true :=
+    C06.layoutStartsB_of_mixed D.dom D.nest (fun g hgm => (D.cover g hgm).imp (fun h => h.1) id)
+  exact save_load_save_nested_input hs hok hg hos D hw hres hfront
+    (C06.resaveOkR_of_layoutNW hlay D.input.nsecs D.input.h0 D.null0 hrs D.nw hst) hmem o2 k isLazy htr2
+
+/-- non-vacuity: `exNestedM` (a PT_LOAD nested in a PT_LOAD) -/
+example (k : StreamKind) (isLazy : Bool) :
+    ∃ (r2 : LoadRes) (r3 : SaveRes),
+      load {} { data := (savedOf (objOf exNestedM)).os.content, kind := k } isLazy = .ok r2 ∧ r2.ok = true ∧
+      save r2.obj {} = .ok r3 ∧ r3.ok = true ∧ r3.os = (savedOf (objOf exNestedM)).os := by
+  obtain ⟨h1, h2, h3, -, -⟩ := exNested_ok
+  have hfront : Sv.NoZeroOffset (objOf exNestedM).segs := by decide +kernel
+  exact save_load_save_nested_input' h1 h2 ⟨rfl, rfl⟩ (by decide) h3 (by decide +kernel) (by decide +kernel)
+    (Or.inl hfront) (C06.resaveOkC_of_B (by decide +kernel)) (by decide +kernel) {} k isLazy rfl
 
 /-- non-vacuity: `save_load_save_flat'` on the ELF64/LSB object `exTwoM` (two PT_LOADs, an explicit address, a
     NOBITS member, a loose section): `ResaveDomainC` holds with `ResaveOkC` evaluated by `resaveOkB` — no
